@@ -270,6 +270,8 @@ def run(tier, seed):
     check_static(st)
     BP = runner.M['builtin_policies'].BUILTIN_POLICIES
     par.pmap(work_dynamic, sorted(BP), stats=st, chunk=3)
+    from props import faultinv as _FI
+    par.pmap(_FI.work, _FI.tasks(), extra=(('monotone',),), stats=st, chunk=6)
     km = key_material_tasks(tier)
     par.pmap(work_key_material, km, stats=st, chunk=16)
     vcases = []
